@@ -193,7 +193,7 @@ async fn run_hist(store: &SqliteStore, h: &Hist, ch: &Chooser) -> Obs {
                             break;
                         }
                         NextEnd::Hang { trace } => {
-                            o.hang = Some(format!("`next` made no progress for 10 s; store calls of that call: {trace:?}"));
+                            o.hang = Some(format!("`next` made no progress for 12 s; store calls of that call: {trace:?}"));
                             return o;
                         }
                     }
@@ -231,10 +231,10 @@ fn exec(h: &Hist, ch: &Chooser) -> Obs {
     let store = ctx.store();
     let r = catch(|| {
         ctx.rt().block_on(async {
-            match tokio::time::timeout(Duration::from_secs(20), run_hist(&store, h, ch)).await {
+            match tokio::time::timeout(Duration::from_secs(40), run_hist(&store, h, ch)).await {
                 Ok(o) => o,
                 Err(_) => Obs {
-                    hang: Some("the history did not finish within 20 s".into()),
+                    hang: Some("the history did not finish within 40 s".into()),
                     ..Default::default()
                 },
             }
